@@ -2,8 +2,10 @@
    Only statements closed by `exact`; proofs in Rect/Determinism.v (scan line, hand-written model tied by the
    correspondence of checks/c09.py + c20.py), Geom/Symmetry.v and Geom/GeomProofs.v (about the cpp2v-GENERATED
    Gen/Geometry.v), Cola/PseudoRandom.v (hand-written LCG model tied by correspondence). *)
+From Coq Require Import Permutation.
 From Adapt Require Import Num.Qaux Rect.RectBase Rect.ScanlineModel Rect.Determinism
-  Geom.GeomSpec Gen.Geometry Geom.GeomProofs Geom.Symmetry Cola.PseudoRandomModel Cola.PseudoRandom.
+  Geom.GeomSpec Gen.Geometry Geom.GeomProofs Geom.Symmetry Cola.PseudoRandomModel Cola.PseudoRandom
+  Vpsc.VpscSpec Vpsc.KKT Vpsc.VpscModel Vpsc.VpscRefute Vpsc.VpscSymmetry Vpsc.VpscTranslate.
 Local Open Scope Q_scope.
 
 (* original CmpNodePos (centre, address): no equal centres => the address order is irrelevant *)
@@ -76,5 +78,113 @@ Theorem C20_pseudorandom_range seed : 0 <= snd (getNext seed) <= 1.
 Proof. exact (getNext_range seed). Qed.
 Print Assumptions C20_pseudorandom_range.
 
-(* NOT PROVED here (stated as missing, see checks/c20.py META): vpsc_translate over the IncSolver model
-   Vpsc/VpscModel.v (adding t to every desired position adds t to every result); it is validated by the replay runs. *)
+(* ---------------------------------------------------------------- VPSC: numbering / order / frame independence *)
+(* vpsc_permute: a certified optimum does not depend on the identifiers or order of variables and constraints.
+   (vs', cs') is (vs, cs) with variable i renamed sg i (rh the inverse) and the constraint list renamed and
+   reordered arbitrarily (`renumbering`, Vpsc/VpscSymmetry.v).  Every n, m, weights > 0, any scales. *)
+Theorem C20_vpsc_permute vs cs lam x vs' cs' lam' y sg rh :
+  wf_vars vs -> wf_cons vs cs ->
+  renumbering vs cs vs' cs' sg rh ->
+  length lam = length cs -> length lam' = length cs' ->
+  kkt vs (combine cs lam) x -> kkt vs' (combine cs' lam') y ->
+  forall i, (i < length vs)%nat -> y (sg i) == x i.
+Proof. exact (vpsc_permute vs cs lam x vs' cs' lam' y sg rh). Qed.
+Print Assumptions C20_vpsc_permute.
+
+Theorem C20_vpsc_permute_perm vs cs lam x vs' cs' lam' y sg rh :
+  wf_vars vs -> wf_cons vs cs ->
+  length vs' = length vs ->
+  (forall i, (i < length vs)%nat -> (sg i < length vs)%nat /\ rh (sg i) = i) ->
+  (forall j, (j < length vs)%nat -> (rh j < length vs)%nat /\ sg (rh j) = j) ->
+  (forall i, (i < length vs)%nat -> vget vs' (sg i) = vget vs i) ->
+  Permutation cs' (map (ren sg) cs) ->
+  length lam = length cs -> length lam' = length cs' ->
+  kkt vs (combine cs lam) x -> kkt vs' (combine cs' lam') y ->
+  forall i, (i < length vs)%nat -> y (sg i) == x i.
+Proof. exact (vpsc_permute_perm vs cs lam x vs' cs' lam' y sg rh). Qed.
+Print Assumptions C20_vpsc_permute_perm.
+
+(* executable form, evaluated by checks/c20.py part (b) on every permuted pair of real runs: both certificates
+   accepted + the renumbering relation checked => the certified optima agree up to the renumbering *)
+Theorem C20_vpsc_permute_checked vs cs xs lam vs' cs' ys lam' p q :
+  kkt_ok vs cs xs lam = true -> kkt_ok vs' cs' ys lam' = true ->
+  renumbering_okb vs cs vs' cs' p q = true ->
+  forall i, (i < length vs)%nat -> nth (nth i p O) ys 0 == nth i xs 0.
+Proof. exact (vpsc_permute_checked vs cs xs lam vs' cs' ys lam' p q). Qed.
+Print Assumptions C20_vpsc_permute_checked.
+
+(* ... in particular for two runs of the IncSolver model whose results pass the certificate.  PARTIAL in the same
+   sense as C02_solve_certified_partial: that inc_solve always ends in a state passing kkt_ok is not proved (and is
+   false for re-solve histories before /repo 676ca34); the certificate is evaluated per run. *)
+Theorem C20_vpsc_permute_model_partial fuel fuel' s0 s0' s s' lam lam' p q :
+  inc_solve fuel s0 = Ok s -> inc_solve fuel' s0' = Ok s' ->
+  kkt_ok (svars s) (scons s) (final_positions s) lam = true ->
+  kkt_ok (svars s') (scons s') (final_positions s') lam' = true ->
+  renumbering_okb (svars s) (scons s) (svars s') (scons s') p q = true ->
+  forall i, (i < length (svars s))%nat -> nth (nth i p O) (final_positions s') 0 == nth i (final_positions s) 0.
+Proof.
+  exact (fun _ _ K K' R => vpsc_permute_checked (svars s) (scons s) (final_positions s) lam
+                             (svars s') (scons s') (final_positions s') lam' p q K K' R).
+Qed.
+Print Assumptions C20_vpsc_permute_model_partial.
+
+(* vpsc_translate (declarative): for scale-1 problems, translating every desired position by t translates the
+   certified (= unique) optimum by t, with the same multipliers; feasibility is unchanged. *)
+Theorem C20_vpsc_translate t vs cs lam x :
+  unit_scale vs -> wf_vars vs -> wf_cons vs cs -> length lam = length cs ->
+  kkt vs (combine cs lam) x ->
+  kkt (shift_vars t vs) (combine cs lam) (shift_place t x) /\
+  (forall z, feasible (shift_vars t vs) cs z ->
+     obj (shift_vars t vs) (shift_place t x) <= obj (shift_vars t vs) z) /\
+  (forall lam' y, length lam' = length cs -> kkt (shift_vars t vs) (combine cs lam') y ->
+     forall i, (i < length vs)%nat -> y i == x i + t).
+Proof. exact (vpsc_translate t vs cs lam x). Qed.
+Print Assumptions C20_vpsc_translate.
+
+Theorem C20_vpsc_translate_feasibility t vs cs :
+  unit_scale vs -> wf_cons vs cs ->
+  (forall x, feasible (shift_vars t vs) cs (shift_place t x) <-> feasible vs cs x) /\
+  ((exists x, feasible vs cs x) <-> (exists y, feasible (shift_vars t vs) cs y)).
+Proof.
+  exact (fun U W => conj (fun x => feasible_shift t vs cs x U W) (feasibility_translation_invariant t vs cs U W)).
+Qed.
+Print Assumptions C20_vpsc_translate_feasibility.
+
+Theorem C20_vpsc_translate_checked t vs cs xs lam ys lam' :
+  unit_scaleb vs = true ->
+  kkt_ok vs cs xs lam = true -> kkt_ok (shift_vars t vs) cs ys lam' = true ->
+  forall i, (i < length vs)%nat -> nth i ys 0 == nth i xs 0 + t.
+Proof. exact (vpsc_translate_checked t vs cs xs lam ys lam'). Qed.
+Print Assumptions C20_vpsc_translate_checked.
+
+(* vpsc_translate over the executable IncSolver model (Vpsc/VpscModel.v, tied to /repo by the correspondence runs of
+   checks/c01.py): for scale-1 problems with positive weights, solve() on the instance whose desired positions are all
+   translated by t ends the same way (Ok / same thrown constraint / out of fuel), and on Ok the two final states are
+   related by `shifted`: identical block structure, active set, unsatisfiable flags, multipliers, offsets, inactive
+   list and tie flag; every position translated by t.  Any fuel, any n, m, t.  (Vpsc/VpscTranslate.v) *)
+Theorem C20_vpsc_translate_model t fuel vs cs :
+  unit_pos vs -> wf_cons vs cs ->
+  match inc_solve fuel (init vs cs), inc_solve fuel (init (shift_vars t vs) cs) with
+  | Ok s, Ok s' => shifted t s s'
+  | ThrowUnsat c, ThrowUnsat c' => c = c'
+  | OutOfFuel, OutOfFuel => True
+  | _, _ => False
+  end.
+Proof. exact (inc_solve_translate t fuel vs cs). Qed.
+Print Assumptions C20_vpsc_translate_model.
+
+Theorem C20_vpsc_translate_model_positions t fuel vs cs s s' :
+  unit_pos vs -> wf_cons vs cs ->
+  inc_solve fuel (init vs cs) = Ok s -> inc_solve fuel (init (shift_vars t vs) cs) = Ok s' ->
+  (forall i, (i < length vs)%nat -> nth i (final_positions s') 0 == nth i (final_positions s) 0 + t) /\
+  cuns s' = cuns s /\ cact s' = cact s /\ blist s' = blist s /\ vblk s' = vblk s.
+Proof. exact (inc_solve_translate_positions t fuel vs cs s s'). Qed.
+Print Assumptions C20_vpsc_translate_model_positions.
+
+(* ... and for whole op histories (addConstraint / desired positions reassigned (translated) / solve / satisfy) *)
+Theorem C20_vpsc_translate_model_history t fuel vs cs ops :
+  unit_pos vs -> wf_cons vs cs ->
+  (forall o, In o ops -> op_ok (length vs) o) ->
+  translated t (length vs) (run_ops fuel (init vs cs) ops) (run_ops fuel (init (shift_vars t vs) cs) (map (shift_op t) ops)).
+Proof. exact (run_ops_translate t fuel vs cs ops). Qed.
+Print Assumptions C20_vpsc_translate_model_history.
